@@ -266,6 +266,11 @@ def run(ctx):
                    (b"\x06\x3e", b"\x00\x00"), (b"\x06\x01", b"\xf0\x00"), (b"\x06\x00", b"\x03"), (b"\x06\x31", b"\x01")):
         probes.append("PARSE 3 1 1 " + gen.ubx_frame(k2[0], k2[1], pl).hex())
     probes += [p for p in reversed(probes[-8:])]
+    # values that are equal as Python objects but not as encodings, one after the other (both signs of zero, int and
+    # float zero, in a keyword-built message and in config_set): what was encoded before must not matter
+    for z in (0.0, -0.0, 0, -0.0, 0.0):
+        probes.append(sweep.build_cmd(b"\x06\x06", 1, True, {"majA": z, "rotX": z}))        # CFG-DAT (R8, R4)
+        probes.append("CFGSET 1 0 CFG_NAVSPG_USRDAT_ROTX=%s CFG_NAVSPG_USRDAT_MAJA=%s" % (impl.show_val(z), impl.show_val(z)))
     # lookups that must keep failing / keep their answer whatever was parsed before
     for code in (1, 2, 3, 4, 5):
         probes.append("CFGNAME2KEY CFG_0x%x" % ((code << 28) | 0x0990099))
